@@ -37,7 +37,7 @@ TypesCases ==
 Templates(i) ==
   LET nm(p) == <<p, i>> IN   \* the harness joins prefix and index into a name
   { Member("method", "M", d, Struct(<<>>), Struct(<<>>)) : d \in {"none", "one"} }
-    \cup { Member("method", "M", "multi", Struct(<<Fld("a", Plain("int")), Fld("b", Arr(Plain("string"))), Fld("c", Opt(Ref("T0")))>>),
+    \cup { Member("method", "M", "multi", Struct(<<Fld("a", Plain("int")), Fld("b", Arr(Plain("string"))), Fld("c", Opt(Plain("object")))>>),
                   Struct(<<Fld("r", Dict(Plain("bool")))>>)) }
     \cup { Member("type", "T", d, Struct(<<Fld("x", Plain("float")), Fld("y", Struct(<<Fld("z", Plain("int"))>>))>>), NoType) : d \in {"none", "crlf"} }
     \cup { Member("type", "T", "tabcont", Enum(<<"alpha", "beta", "gamma">>), NoType), Member("type", "T", "none", Struct(<<>>), NoType) }
@@ -53,18 +53,54 @@ DupMember(k, n) == Member(k, n, "none", IF k = "type" THEN Struct(<<Fld("x", Pla
 DupCases ==
   UNION { {Iface("none", ms) : ms \in [1..n -> {DupMember(k, nm) : k \in DupKinds, nm \in {"A", "B"}}]} : n \in 2..3 }
 
-Universe == CASE Mode = "types" -> TypesCases [] Mode = "shapes" -> ShapesCases [] Mode = "dups" -> DupCases
+(* Mode "names": every name of three pools (ordinary identifiers, IDL keywords, Rust keywords and identifiers the generated *)
+(* code uses itself) in every name position: type, method, error, field (typedef / method in / method out / error), enum element *)
+FieldPool == {"foo", "a_b", "x1", "Foo"}
+               \cup {"type", "method", "error", "interface", "bool", "int", "float", "string", "object"}
+               \cup {"fn", "struct", "match", "self", "Self", "super", "crate", "async", "dyn", "loop", "enum", "impl", "trait", "mod", "use",
+                     "pub", "ref", "mut", "move", "static", "const", "unsafe", "where", "while", "for", "if", "else", "in", "let", "return",
+                     "break", "continue", "true", "false", "as", "box", "try", "yield", "abstract", "await", "call", "writer", "request"}
+TypeNamePool == {"Foo", "Self", "Call", "Error", "ErrorKind", "Result", "Option", "String", "Vec", "Box", "VarlinkClient", "VarlinkInterface", "Type"}
+MethodNamePool == {"Foo", "Call", "CallUpgraded", "Type", "GetInfo", "New", "Self", "Reply"}
+ErrorNamePool == {"Foo", "Error", "VarlinkError", "Io", "Self", "Result"}
+
+T1def == Member("type", "T1", "none", Struct(<<Fld("x", Plain("int"))>>), NoType)
+M1def == Member("method", "M1", "none", Struct(<<>>), Struct(<<>>))
+NamesCases ==
+     {Iface("none", <<T1def, Member("type", "T2", "none", Struct(<<Fld(n, Plain("int")), Fld("other", Ref("T1"))>>), NoType), M1def>>) : n \in FieldPool}
+  \cup {Iface("none", <<T1def, Member("type", "T2", "none", Enum(<<n, "other">>), NoType), M1def>>) : n \in FieldPool}
+  \cup {Iface("none", <<T1def, Member("method", "M1", "none", Struct(<<Fld(n, Plain("string"))>>), Struct(<<Fld(n, Plain("bool"))>>))>>) : n \in FieldPool}
+  \cup {Iface("none", <<T1def, M1def, Member("error", "E1", "none", Struct(<<Fld(n, Plain("int"))>>), NoType)>>) : n \in FieldPool}
+  \cup {Iface("none", <<Member("type", n, "none", Struct(<<Fld("x", Plain("int"))>>), NoType),
+                        Member("method", "M1", "none", Struct(<<Fld("a", Ref(n))>>), Struct(<<Fld("b", Arr(Ref(n)))>>))>>) : n \in TypeNamePool}
+  \cup {Iface("none", <<T1def, Member("method", n, "none", Struct(<<Fld("a", Plain("int"))>>), Struct(<<Fld("b", Plain("int"))>>))>>) : n \in MethodNamePool}
+  \cup {Iface("none", <<T1def, M1def, Member("error", n, "none", Struct(<<Fld("a", Plain("int"))>>), NoType)>>) : n \in ErrorNamePool}
+
+(* Mode "rt": round-trip programs (C08): type t in method input, output, typedef field, and (when it has no anonymous part, *)
+(* see finding F5) error parameter; a second method passes the typedef around                                                *)
+RtPool == Pool(TypeDepth) \cup {Dict(Struct(<<>>)), Opt(Dict(Struct(<<>>))), Arr(Dict(Plain("int"))), Dict(Arr(Opt(Plain("string"))))}
+RtCases ==
+  {Iface("none", << Member("type", "T1", "none", Struct(<<Fld("x", Plain("int"))>>), NoType),
+                    Member("type", "T2", "none", Struct(<<Fld("interface", t), Fld("y", Opt(Plain("string")))>>), NoType),
+                    Member("method", "M1", "none", Struct(<<Fld("f", t), Fld("type", Plain("int"))>>), Struct(<<Fld("g", t), Fld("h", Plain("bool"))>>)),
+                    Member("method", "M2", "none", Struct(<<Fld("a", Ref("T2"))>>), Struct(<<Fld("b", Arr(Ref("T2")))>>)),
+                    Member("method", "Nop", "none", Struct(<<>>), Struct(<<>>)),
+                    Member("error", "E1", "none", Struct(<<Fld("e", IF HasAnon(t) THEN Plain("int") ELSE t), Fld("enum", Plain("string"))>>), NoType),
+                    Member("error", "E0", "none", Struct(<<>>), NoType) >>)
+     : t \in RtPool}
+
+Universe == CASE Mode = "rt" -> RtCases [] Mode = "types" -> TypesCases [] Mode = "shapes" -> ShapesCases [] Mode = "dups" -> DupCases [] Mode = "names" -> NamesCases
 
 Init == ast \in Universe
 Next == UNCHANGED ast
 Spec == Init /\ [][Next]_ast
 
 \* in "shapes" mode names are made distinct by the harness, so only "dups" has collisions
-Dups == IF Mode = "dups" THEN DupNames(ast.members) ELSE {}
+Dups == IF Mode \in {"dups", "names"} THEN DupNames(ast.members) ELSE {}
 TypesAllOk == \A i \in 1..Len(ast.members) : TypeOk(ast.members[i].a) /\ TypeOk(ast.members[i].b)
 
 SetToSeq(S) == IF S = {} THEN <<>> ELSE IF Cardinality(S) = 1 THEN <<CHOOSE x \in S : TRUE>>
                ELSE LET a == CHOOSE x \in S : TRUE IN <<a>> \o <<CHOOSE y \in S \ {a} : TRUE>>
 
-EmitCase == Emit => PrintT(<<"REPLAY", ToJson([ast |-> ast, mode |-> Mode, dups |-> SetToSeq(Dups)])>>)
+EmitCase == Emit => PrintT(<<"REPLAY", ToJson([ast |-> ast, mode |-> Mode, dups |-> SetToSeq(Dups), valid |-> Valid(ast.members)])>>)
 =============================================================================
